@@ -363,11 +363,10 @@ func run(e *hk.Env) error {
 	if e.Thorough() {
 		patAlpha2 = []string{"a", "b", ":x", ":y", "*", ""}
 		pathAlpha2 = []string{"a", "b", "c", "", ":x", "*"}
-		pathLen2 = 4
 		reqMeths2 = reqMethods
 	}
 	routes2 := routesOver(patternsOver(patAlpha2, patLen2), regMethods)
-	reqs2 := cross(pathsOver(pathAlpha2, pathLen2, e.Thorough()), reqMeths2)
+	reqs2 := cross(pathsOver(pathAlpha2, pathLen2, false), reqMeths2)
 	var tables2 [][]route
 	for _, r1 := range routes2 {
 		for _, r2 := range routes2 {
